@@ -20,7 +20,8 @@ class LoopSpec:
     """
 
     def __init__(self, invariant, heap='havoc', decreases=None, types=None, header=None, lemmas=None, body_check=None,
-                 keeps_owned=False, mk_heap=None, case_facts=None, owned=None):
+                 keeps_owned=False, mk_heap=None, case_facts=None, owned=None, trusted_invariant=False):
+        self.trusted_invariant = trusted_invariant   # the invariant is assumed at the head but not proved (listed)
         self.owned = owned             # owned(L) -> [(kind, ref, guard)] temporaries the invariant declares unescaped
         self.case_facts = case_facts   # case_facts(L, label) -> (facts of this case, disjunction of all cases) | None
         self.mk_heap = mk_heap         # mk_heap(ctx) -> the havocked heap at the loop head (default: a fresh heap)
@@ -115,8 +116,11 @@ def inductive_loop(ip, frame, st, spec, seq, tag=None):
     is_for = isinstance(st, ast.For)
     # establish
     view0 = LoopView(ip, frame, frame.env, ctx.heap, env0, heap0, z3.IntVal(0))
-    for label, f in _labelled(spec.invariant(view0)):
-        ctx.oblige(f'{tag}.establish.{label}', f, kind='loop-establish')
+    if not spec.trusted_invariant:
+        for label, f in _labelled(spec.invariant(view0)):
+            ctx.oblige(f'{tag}.establish.{label}', f, kind='loop-establish')
+    else:
+        ctx.note(f'{tag}: state-typing invariant assumed, not proved')
     # havoc
     body_nodes = list(st.body)
     names = assigned_names(body_nodes)
@@ -156,7 +160,7 @@ def inductive_loop(ip, frame, st, spec, seq, tag=None):
         go = ctx.test(ip.eval(frame, st.test))
     if not go:
         ctx.ghost.setdefault('events', []).append({'kind': 'loop-done', 'loop': tag, 'k': k, 'heap_before': heap0,
-                                                    'heap_after': ctx.heap})
+                                                    'heap_after': ctx.heap, 'env': dict(frame.env)})
         ip.exec_block(frame, st.orelse)
         return
     if is_for:
@@ -186,8 +190,9 @@ def inductive_loop(ip, frame, st, spec, seq, tag=None):
             if not any(o[0] == kind and o[1].eq(ref) for o in ctx.owned):
                 raise OutOfReach(f'{tag}: a temporary assumed unescaped escapes in the loop body')
     view2 = LoopView(ip, frame, frame.env, ctx.heap, env0, heap0, (k + 1) if is_for else None)
-    for label, f in _labelled(spec.invariant(view2)):
-        ctx.oblige(f'{tag}.preserve.{label}', f, kind='loop-preserve')
+    if not spec.trusted_invariant:
+        for label, f in _labelled(spec.invariant(view2)):
+            ctx.oblige(f'{tag}.preserve.{label}', f, kind='loop-preserve')
     if spec.heap == 'unchanged':
         h, g = ctx.heap, heap_head
         ctx.oblige(f'{tag}.heap-unchanged', z3.And(h.LEN == g.LEN, h.ELS == g.ELS, h.HAS == g.HAS, h.VAL == g.VAL,
